@@ -121,8 +121,8 @@ static void followup(varintBitmap *vb, bitset *m) {
 }
 
 /* build a bitmap of a given container kind (fault-free part of a scenario) */
-enum { MK_EMPTY, MK_ARRAY_SMALL, MK_ARRAY_FULLCAP, MK_ARRAY_4096, MK_BITMAP_4097, MK_BITMAP_5000, MK_RUNS_5000, MK_RUNS_4096, MK_ARRAY_4095_ODD };
-static const char *MKN[] = {"empty", "array{1,5,9}", "array of 16 (capacity full)", "array of 4096", "bitmap of 4097", "bitmap of 5000", "runs [100,5100)", "runs [0,4097)-style", "array of 4095 odd"};
+enum { MK_EMPTY, MK_ARRAY_SMALL, MK_ARRAY_FULLCAP, MK_ARRAY_4096, MK_BITMAP_4097, MK_BITMAP_5000, MK_RUNS_5000, MK_RUNS_4096, MK_ARRAY_4095_ODD, MK_BITMAP_4096, MK_RUNS_CLEARED };
+static const char *MKN[] = {"empty", "array{1,5,9}", "array of 16 (capacity full)", "array of 4096", "bitmap of 4097", "bitmap of 5000", "runs [100,5100)", "runs [0,4097)-style", "array of 4095 odd", "dense container holding exactly 4096", "run container after clear (no runs)"};
 static varintBitmap *mk(int kind, bitset *m) {
     varintBitmap *vb = varintBitmapCreate();
     memset(m, 0, sizeof *m);
@@ -161,6 +161,18 @@ static varintBitmap *mk(int kind, bitset *m) {
             varintBitmapAdd(vb, (uint16_t)(i * 3));
             bs_set(m, i * 3);
         }
+        break;
+    case MK_BITMAP_4096:
+        for (uint32_t i = 0; i < 4097; i++) {
+            varintBitmapAdd(vb, (uint16_t)(i * 3));
+            bs_set(m, i * 3);
+        }
+        varintBitmapRemove(vb, 0); /* 4097 -> 4096: stays a dense container */
+        bs_clr(m, 0);
+        break;
+    case MK_RUNS_CLEARED:
+        varintBitmapAddRange(vb, 100, 5100);
+        varintBitmapClear(vb);
         break;
     case MK_BITMAP_5000:
         for (uint32_t i = 0; i < 5000; i++) {
@@ -687,6 +699,14 @@ static void build_scenarios(void) {
     add_sc("bitmap.Remove", 4, B_REMOVE, MK_RUNS_5000, 100);  /* runs above 4096 */
     add_sc("bitmap.Remove", 4, B_REMOVE, MK_ARRAY_SMALL, 5);
     add_sc("bitmap.Remove", 4, B_REMOVE, MK_RUNS_4096, 5);
+    add_sc("bitmap.Remove", 4, B_REMOVE, MK_BITMAP_4096, 3);  /* dense 4096 -> 4095: converts to an array */
+    add_sc("bitmap.Remove", 4, B_REMOVE, MK_RUNS_CLEARED, 7); /* run container with fewer than 4096 members */
+    add_sc("bitmap.Add", 4, B_ADD, MK_RUNS_CLEARED, 7);
+    add_sc("bitmap.Add", 4, B_ADD, MK_BITMAP_4096, 1);
+    add_sc("bitmap.Clone", 4, B_CLONE, MK_RUNS_CLEARED, 0);
+    add_sc("bitmap.Clone", 4, B_CLONE, MK_ARRAY_4096, 0);
+    add_sc("bitmap.Decode", 4, B_DECODE, MK_EMPTY, 0);
+    add_sc("bitmap.Decode", 4, B_DECODE, MK_ARRAY_4096, 0);
     static const int kindsR[5] = {MK_EMPTY, MK_ARRAY_SMALL, MK_ARRAY_4095_ODD, MK_BITMAP_5000, MK_RUNS_5000};
     for (int i = 0; i < 5; i++) {
         add_sc("bitmap.AddRange(small)", 4, B_ADDRANGE_SMALL, kindsR[i], 20000);
@@ -835,7 +855,16 @@ int main(int argc, char **argv) {
         }
     }
     vh_flag("all_scenarios_all_single_faults", complete);
-    vh_count("distinct_failed_sites", (uint64_t)nsites);
+    {
+        /* allocation call sites (return addresses relative to main) at which a failure was injected */
+        static char buf[1900];
+        size_t pos = 0;
+        buf[0] = 0;
+        for (int i = 0; i < nsites && pos + 12 < sizeof buf; i++) {
+            pos += (size_t)snprintf(buf + pos, sizeof buf - pos, "%s%lx", i ? "," : "", (unsigned long)((uintptr_t)site_seen[i] - (uintptr_t)main));
+        }
+        vh_infostr("set:failed_sites", "%s", buf);
+    }
     vh_infostr("max_allocations_in_one_call", "%" PRIu64, maxN);
     vh_write_out();
     return 0;
